@@ -18,6 +18,56 @@ CLAIMED = {
             "Trusts the harness's reference codec (written from the Engine.IO v4 document) and Go's runtime.MemStats; WebTransport framing is "
             "exercised at function level through the verif export shims (the server composes exactly these functions).",
             "DESIGN.md §3 C11"),
+    "C09": ("exploration",
+            "property-based round-trip + differential conformance testing (rapid) + native fuzzing",
+            "rapid-generated packets (all types, namespaces, ack ids over full uint64, arbitrary UTF-8 event names, 0..5 arguments from a library of 16 Go shapes with Binary leaves "
+            "at depth 0..4) checked three ways: round trip through a fresh Parser.Add and type-directed decode (twice), conformance against an independent v5 reference (header bytes, JSON "
+            "value, placeholder k <-> frame k+1 <-> Binary at that path), and input-intact (caller's values unchanged, re-encode gives the same packet). A stream variant feeds several "
+            "packets through ONE parser and decodes them later in any order. Thorough: 1.6M+ cases over 16 shards and coverage-guided fuzzing through rapid.MakeFuzz.",
+            "Trusts the harness's reference codec and tree comparison; plain-JSON serialisation is compared as a value against encoding/json's reading; only the stdjson serializer "
+            "(the default) is exercised. User maps that are exactly placeholder-shaped are excluded (protocol ambiguity).",
+            "DESIGN.md §3 C09"),
+    "C10": ("exploration",
+            "small-scope exhaustive enumeration + grammar-aware mutation (rapid) + native fuzzing, no-panic/value-or-error oracle",
+            "Parser level: EXHAUSTIVE enumeration of every string <= 4 (quick) / <= 6 (thorough) over the 12 protocol-significant bytes as first frame with 0..2 attachment frames; rapid "
+            "grammar-aware mutations of valid packets (counts, placeholder nums, flags, frame drop/dup/reorder, namespace without comma, id overflow, odd event names); native fuzzing. "
+            "Every completed packet is decoded twice against 10 handler-signature families. Oracle: no panic, Add returns an error or eventually finishes (attachment count must be a "
+            "representable positive integer, completion exactly at the declared count), decode returns values or an error, repeatably.",
+            "Parser-level only so far (process-level isolation of a hostile connection is being built); trusts the harness's reading of the header grammar.",
+            "DESIGN.md §3 C10"),
+    "C13": ("exploration",
+            "small-scope exhaustive enumeration + rapid, validity predicate over the batching",
+            "Client batcher through the verif export shim: EXHAUSTIVE over every vector of <= 5 (quick) / <= 6 (thorough) packet sizes x every maxPayload, text and text/binary mixes, plus rapid "
+            "vectors with realistic sizes around 1e6; validity predicate (batches concatenate to the input, none empty, every multi-packet batch within maxPayload).",
+            "Batcher part only so far (server-side limits per transport are being built on the rig).",
+            "DESIGN.md §3 C13"),
+    "C15": ("exploration",
+            "property-based testing (rapid) of the back-off function against its stated bounds",
+            "rapid over (delay, max, jitter, attempt) including overflow attempts, each evaluated 8 times: 0 < d <= max, first delay within the jitter band around ReconnectionDelay, no panic.",
+            "Function level only so far (the reconnect state machine with outages is being built on the rig).",
+            "DESIGN.md §3 C15"),
+    "C17": ("exploration",
+            "exhaustive request matrix + rapid schedules with a forced yield point (virtual time)",
+            "EXHAUSTIVE 2400-request matrix (method x EIO x transport x sid state x b64 x jsonp) through ServeHTTP against a fixture with live polling/WebSocket/closed sessions: protocol error code "
+            "belongs to the invalid aspects, no session created/closed, live sessions still work; 10^5..10^6 generated ids + real handshakes pairwise distinct; handshakes racing Server.Close in a "
+            "synctest bubble with a yield hook before store.set (every created session gets exactly one close callback, nothing admitted after Close returned).",
+            "The WebSocket live session runs over the in-memory network; requests are delivered through ServeHTTP on a recorder (no HTTP parsing by net/http for the matrix).",
+            "DESIGN.md §3 C17"),
+    "C18": ("exploration",
+            "model-based stateful property testing (rapid) against a reference registry + concurrent bursts",
+            "rapid state machine over six registries through the public API with real occurrences in a virtual-time rig (server/client socket events, Namespace/Server connection handlers, client "
+            "connect/disconnect, Manager close), 8 distinct functions per signature, set of admissible models for duplicate registrations; occurrences singly and in simultaneous bursts; plus a "
+            "dedicated Once-vs-burst load test (each Once handler exactly once per burst).",
+            "Handlers are distinct top-level functions (Go identifies funcs by code pointer; closures of one literal are outside the sampled domain). Lifecycle cases whose connection attempt fails "
+            "spontaneously are aborted and counted (the registry oracle needs a known number of occurrences).",
+            "DESIGN.md §3 C18"),
+    "C19": ("exploration",
+            "forced-schedule property testing in virtual time (yield hook) + exhaustive placement enumeration",
+            "The real pollQueue/packetQueue in a synctest bubble; a yield hook parks the consumer between its emptiness check and its wait while 'window' producers run. EXHAUSTIVE over "
+            "placements (<= 3 producers x {before, window, after} x 1-2 consumers x finale) and rapid over sizes/hits; oracle: every packet handed over reaches a consumer within 1 s of virtual "
+            "time, exactly once, FIFO; no empty poll while queued; consumers terminate.",
+            "Queue level only so far (end-to-end polling latency on the rig is being built). Schedules are forced only at the hook sites.",
+            "DESIGN.md §3 C19"),
 }
 
 NOT_YET = "check not built yet in this session; planned in DESIGN.md §3 (property-based testing applies)"
